@@ -495,7 +495,12 @@ func (x *Exec) createLike(kind nt.Ftype3, dir Ref, name string, target string, e
 	if err != nil {
 		return err
 	}
-	if err := x.status(st, want, dir); err != nil {
+	if excl {
+		// an unsupported mode is refused as such, whatever the handle
+		if err := x.status(st, false); err != nil {
+			return err
+		}
+	} else if err := x.status(st, want, dir); err != nil {
 		return err
 	}
 	if excl && st != nt.NFS3ERR_NOTSUPP {
@@ -581,7 +586,11 @@ func (x *Exec) removeLike(rmdir bool, dir Ref, name string) error {
 		return err
 	}
 	want := x.M.CanRemove(dir.N, name, rmdir)
-	if err := x.status(st, want, dir); err != nil {
+	refs := []Ref{dir}
+	if name == "." || name == ".." {
+		refs = nil // refused because of the name, whatever the handle
+	}
+	if err := x.status(st, want, refs...); err != nil {
 		return err
 	}
 	if want {
@@ -605,7 +614,11 @@ func (x *Exec) Rename(fd Ref, fn string, td Ref, tn string) error {
 		return err
 	}
 	want := x.M.CanRename(fd.N, fn, td.N, tn)
-	if err := x.status(res.Status, want, fd, td); err != nil {
+	refs := []Ref{fd, td}
+	if fn == "." || fn == ".." || tn == "." || tn == ".." {
+		refs = nil // refused because of the name, whatever the handles
+	}
+	if err := x.status(res.Status, want, refs...); err != nil {
 		return err
 	}
 	if want {
